@@ -227,6 +227,14 @@ impl Table {
 pub struct Bucket(KBucket<KeyBytes, u8>);
 
 impl Bucket {
+    /// `KBucket::new` with a `KBucketConfig` built through its setters.
+    pub fn new(bucket_size: usize, pending_timeout: Duration) -> Self {
+        let mut config = KBucketConfig::default();
+        config.set_bucket_size(NonZeroUsize::new(bucket_size).expect("non-zero"));
+        config.set_pending_timeout(pending_timeout);
+        Bucket(KBucket::new(config))
+    }
+
     pub fn from_parts(
         keys: &[KeyBytes],
         capacity: usize,
